@@ -134,6 +134,35 @@ func CheckUciHistory(sc *Scenario, out *UciRunOut, res *RunResult) {
 				res.count("movetime_samples", 1)
 			}
 		}
+		// C13: a ponder search with a fixed move time runs on the clock from the ponderhit
+		if c13 && g.limits.MoveTime > 0 && g.limits.Ponder && g.hitT >= 0 && g.stopT < 0 {
+			el := best.T - g.hitT
+			lim := g.limits.MoveTime*1_000_000 + moveTimeSlackNs + stall
+			if el > lim {
+				res.addViolation("C13", "movetime_overrun_after_ponderhit", fmt.Sprintf("%q: bestmove %dus after ponderhit (limit %dus)", g.line, el/1000, lim/1000))
+			}
+			res.count("ponderhit_movetime_samples", 1)
+		}
+		// C13, observed view of the clock: the mover's clock runs from the go
+		// (from the ponderhit for a ponder search); an answer that comes later
+		// than the remaining time has lost the game on time
+		if c13 && g.root != nil && g.limits.MoveTime == 0 && !g.limits.Infinite && g.stopT < 0 && (!g.limits.Ponder || g.hitT >= 0) {
+			remain := g.limits.WTime
+			if !g.root.WhiteTo {
+				remain = g.limits.BTime
+			}
+			if remain > 0 {
+				from := g.tIn
+				if g.limits.Ponder {
+					from = g.hitT
+				}
+				el := best.T - from
+				if lim := remain*1_000_000 + moveTimeSlackNs + stall; el > lim {
+					res.addViolation("C13", "clock_overrun", fmt.Sprintf("%q on %s: bestmove %dus after the clock started, only %d ms remained", g.line, g.root.Fen(), el/1000, remain))
+				}
+				res.count("clock_observed_samples", 1)
+			}
+		}
 		if c14 && g.root != nil && len(g.root.LegalMoves()) > 0 && bm != "NoMove" && bm != "" && !g.root.IsLegal(bm) && bm == prevBest {
 			res.addViolation("C14", "answered_by_earlier_result", fmt.Sprintf("%q on %s answered with %s, the answer of the previous search, which is not a legal move here", g.line, g.root.Fen(), bm))
 		}
